@@ -411,8 +411,10 @@ Definition zeros8 : list Z := [0; 0; 0; 0; 0; 0; 0; 0].
 (* l = the relays handled by the restore loop (all of them unless a motion-sensor input owns the relay, C06) *)
 Definition boot_l (e : bool) (c : cfg) (l : list (Z * relay)) (s : st) : st :=
   (* RAM is fresh; `s` carries now, the flash image, the outputs so far and the (static) staircase times *)
+  (* ... and upc = the wrap count the uptime starts with: 0 after a restart; c_boot / 2^32 at the first boot of a case
+     (an aged device: the driver presets usermain_uptime.cycles, c_boot mod 2^32 is the counter value) *)
   let s1 := t_arm TUP UPTIME_POLL_MS true
-              (set_upc 0 (set_upl 0 (set_seqc 0 (set_li 0 (set_tcd tmr0 (set_tsv tmr0 (set_tup tmr0 s))))))) in
+              (set_upl 0 (set_seqc 0 (set_li 0 (set_tcd tmr0 (set_tsv tmr0 (set_tup tmr0 s)))))) in
   let s2 := set_ram_relay (fl_relay s1) (set_ram_t2 (fl_t2 s1) s1) in
   let s3 := set_slots (repeat slot_free 8) (set_delay 0 s2) in
   let s4 := set_chfl (if c_lateflags c then map (fun _ => 0) (c_relays c) else map r_chfl (c_relays c)) s3 in
@@ -429,7 +431,7 @@ Definition boot (e : bool) (c : cfg) (s : st) : st := boot_l e c (enum 0 (c_rela
 
 Definition pad8 (l : list Z) : list Z := firstn 8 (l ++ zeros8).
 Definition init (c : cfg) : st :=
-  {| now := 0; cnt0 := c_boot c; tb := 0; upc := 0; upl := 0; gout := 0; slots := repeat slot_free 8; delay := 0;
+  {| now := 0; cnt0 := c_boot c; tb := 0; upc := c_boot c / 4294967296; upl := 0; gout := 0; slots := repeat slot_free 8; delay := 0;
      tcd := tmr0; tsv := tmr0; tup := tmr0; seqc := 0; li := 0;
      ram_relay := zeros8; ram_t2 := zeros8; fl_relay := zeros8; fl_t2 := zeros8;
      chfl := []; time2 := pad8 (c_time2 c); conn := false; reg := false; queue := []; regreq := false; obuf := []; outs := [] |}.
@@ -442,7 +444,8 @@ Inductive ev :=
 | ECrash
 | ETime2 (ch ms : Z)
 | EFlags
-| EOther.
+| EOther
+| EChCfg (ch func ctype csize ms : Z).   (* supla_esp_channel_config_result: SET_CHANNEL_CONFIG / GET_CHANNEL_CONFIG_RESULT *)
 
 Definition st_line (c : cfg) (s : st) : out :=
   OSt (now s) (delay s) (if t_on (tcd s) then 1 else 0)
@@ -452,7 +455,19 @@ Definition st_line (c : cfg) (s : st) : out :=
                     if pin s (r_gpio r) then 1 else 0]) (enum 0 (c_relays c))).
 
 Definition crash (e : bool) (c : cfg) (s : st) : st :=
-  boot e c (set_tb (now s) (set_cnt0 (c_boot2 c) (emit (OReboot (now s)) s))).
+  boot e c (set_upc 0 (set_tb (now s) (set_cnt0 (c_boot2 c) (emit (OReboot (now s)) s)))).
+
+(* supla_esp_channel_config_result, relay functions: the staircase time of the channel (0 for a power / light switch);
+   only a changed value is stored, and then the timer of the channel is set up anew *)
+Definition channel_config (e : bool) (c : cfg) (ch func ctype csize ms : Z) (s : st) : st :=
+  if (0 <? func) && (ctype =? 0) && (csize =? 0) then s
+  else if (func =? FNC_STAIRCASE) || (func =? FNC_POWERSWITCH) || (func =? FNC_LIGHTSWITCH) then
+    if (0 <=? ch) && (ch <? T2_COUNT) then
+      let t := if (func =? FNC_STAIRCASE) && (ctype =? 0) && (csize =? SIZEOF_STAIR_CFG) then u32 ms else 0 in
+      if t =? getz (time2 s) ch then s
+      else set_duration_timer e c ch 1 0 0 (set_time2 (setz (time2 s) ch t) s)
+    else s
+  else s.
 
 Definition step (e : bool) (c : cfg) (s : st) (x : ev) : st :=
   let s1 := match x with
@@ -463,6 +478,7 @@ Definition step (e : bool) (c : cfg) (s : st) (x : ev) : st :=
             | ETime2 ch ms => if (0 <=? ch) && (ch <? T2_COUNT) then set_time2 (setz (time2 s) ch ms) s else s
             | EFlags => set_chfl (map r_chfl (c_relays c)) s
             | EOther => emit OUnknown s
+            | EChCfg ch func ctype csize ms => channel_config e c ch func ctype csize ms s
             end in
   emit (st_line c s1) s1.
 
@@ -507,6 +523,7 @@ Definition ev_of_wire (w : wire) : ev :=
     else if k =? 4 then ECrash
     else if k =? 5 then match a with [ch; ms] => ETime2 ch ms | _ => EOther end
     else if k =? 6 then EFlags
+    else if k =? 7 then match a with [ch; f; ct; cs; ms] => EChCfg ch f ct cs ms | _ => EOther end
     else EOther
   end.
 Definition wire_of_out (o : out) : list wire :=
